@@ -243,4 +243,33 @@ theorem decIsKey_exact_int (n t : Nat) (ht : n / 2 ^ 52 = 1075 + t) (hf : n / 2 
   rw [hup]
   split <;> simp [hlo2, hlo4]
 
+def dstep (acc : Option Nat) (c : Char) : Option Nat :=
+  acc.bind (fun a => if c.isDigit then some (a * 10 + (c.toNat - 48)) else none)
+
+theorem digitsVal_eq (l : List Char) : digitsVal l = if l.isEmpty then none else l.foldl dstep (some 0) := rfl
+
+/-- the digit reader is positional: appending a digit multiplies by ten and adds it -/
+theorem digitsVal_snoc (l : List Char) (c : Char) (hl : l ≠ []) (hc : c.isDigit = true) :
+    digitsVal (l ++ [c]) = (digitsVal l).map (fun a => a * 10 + (c.toNat - 48)) := by
+  rw [digitsVal_eq, digitsVal_eq]
+  have h1 : (l ++ [c]).isEmpty = false := by simp
+  have h2 : l.isEmpty = false := by simpa using hl
+  simp only [h1, h2, List.foldl_append, List.foldl_cons, List.foldl_nil]
+  simp only [Bool.false_eq_true, if_false]
+  cases h : List.foldl dstep (some 0) l <;> simp [dstep, hc]
+
+/-- anything but a digit makes the reader fail -/
+theorem digitsVal_nondigit (l r : List Char) (c : Char) (hc : c.isDigit = false) :
+    digitsVal (l ++ c :: r) = none := by
+  rw [digitsVal_eq]
+  have h1 : (l ++ c :: r).isEmpty = false := by simp
+  simp only [h1, Bool.false_eq_true, if_false, List.foldl_append, List.foldl_cons]
+  have hnone : ∀ r : List Char, List.foldl dstep none r = none := by
+    intro r; induction r with
+    | nil => rfl
+    | cons x xs ih => simpa [dstep] using ih
+  have : dstep (List.foldl dstep (some 0) l) c = none := by
+    cases List.foldl dstep (some 0) l <;> simp [dstep, hc]
+  rw [this, hnone]
+
 end Sod.Codec
